@@ -7,6 +7,8 @@ C07 — line-protocol driver of the models (core only).  One op per line, one an
   intdec <hex bytes>             → vals <x…> | err             (Integer.Decoding; non-library modes)
   time <pos> <slen> <x…>         → ok <hex bytes> | err        (Time.Encoding; uint64 bit patterns, hex)
   timedec <hex bytes>            → vals <x…> | err             (Time.Decoding; non-library modes)
+  bool <0/1 string | ->           → ok <hex bytes>              (Boolean.Encoding)
+  booldec <hex bytes>            → bits <0/1 string | -> | err (Boolean.Decoding)
 
 `zlen` is the observed length of the zstd (snappy, …) payload for the block's raw bytes: the
 library output is opaque to the model, only its length takes part in the mode decision.  In a
@@ -14,6 +16,7 @@ library mode both sides print the frame header in hex followed by `+<payload len
 -/
 import OG.C07.IntBlock
 import OG.C07.TimeBlock
+import OG.C07.Bool
 
 namespace OG.C07
 
@@ -180,6 +183,18 @@ def step (line : String) : String :=
       match decodeTime (fun _ => none) bs with
       | none => "err"
       | some xs => showVals "vals" (xs.map (·.toNat))
+  | "bool" =>
+    if rest == "-" then showBytes (encodeBool [])
+    else if rest.any (fun c => c ≠ '0' ∧ c ≠ '1') then "bad-op"
+    else showBytes (encodeBool (rest.toList.map (· == '1')))
+  | "booldec" =>
+    match hexBytes? rest with
+    | none => "bad-op"
+    | some bs =>
+      match decodeBool bs with
+      | none => "err"
+      | some [] => "bits -"
+      | some vs => "bits " ++ String.ofList (vs.map fun b => if b then '1' else '0')
   | _ => "bad-op"
 
 /-- read up to `n` lines. -/
